@@ -1,8 +1,10 @@
 """Controller family (C03, C06, C07 and the controller-level halves of C01, C02, C11):
 spec/Controller.tla + spec/ControllerMC.tla (roles A and B), harness/controller (replay on the real
 controller + allocator + ServiceReconciler), spec/ControllerTrace.tla (role C)."""
+import hashlib
 import json
 import os
+import re
 
 import vlib
 
@@ -135,12 +137,13 @@ def run_controller(chk):
     prefix = chk.prop + "."
     for cfg, mode in CONFIGS[chk.prop][chk.tier]:
         if mode == "sim":
-            raw, res = vlib.simulate_walks(chk, "ControllerMC", cfg, SIM["num"], SIM["depth"], chk.seed)
+            raw, res = vlib.simulate_walks(chk, "ControllerMC", cfg, SIM["num"], SIM["depth"], chk.seed, mode="generate")
             if not raw:
                 raise vlib.Inconclusive("simulation produced no walks: " + res.out[-800:])
             steps = [[o["act"] for o in w] for w in raw]
-            inits = [init_of(dict(w[0]["pre"], stale=res.extra.get("stale", False))) for w in raw]
-            nedges = sum(map(len, raw))
+            inits = [init_of(dict(res.init_states[w[0]["pre_h"]], stale=res.extra.get("stale", False))) for w in raw]
+            nedges = sum(map(len, steps))
+            del raw
             left = 0
             exhaustive = False
         else:
@@ -159,27 +162,40 @@ def run_controller(chk):
         vlib.log("  %s: %d edges, %d walks, %d steps, %d uncovered" % (cfg, nedges, len(steps), sum(map(len, steps)), left))
         obs_path = replay_walks(chk, scen, domain_path, cfg)
         fails, nlines = judge(chk, obs_path)
-        obs = [json.loads(l) for l in open(obs_path)]
-        byw = {}
-        for o in obs:
-            byw.setdefault(o["w"], []).append(o)
+        # stream the observations (they can be hundreds of thousands of lines): counts only; the
+        # observations of failing walks are loaded afterwards
         nontrivial = set()
         quiescent = 0
-        for w, ol in byw.items():
-            for k in range(1, len(ol)):
-                if ol[k]["q"]:
-                    quiescent += 1
-                if ol[k]["api"] != ol[k - 1]["api"] or ol[k]["mem"] != ol[k - 1]["mem"]:
-                    nontrivial.add(vlib.canon([ol[k - 1]["api"], ol[k - 1]["mem"], ol[k - 1]["ctl"], ol[k]["op"], ol[k]["s"],
-                                               ol[k]["act"] if ol[k]["op"].startswith("User") else None]))
+        prev = None
+        sample_obs = []
+        with open(obs_path) as fh:
+            for line in fh:
+                o = json.loads(line)
+                if o["w"] == "w0" and len(sample_obs) < 4:
+                    sample_obs.append(o)
+                if prev is not None and prev["w"] == o["w"]:
+                    if o["q"]:
+                        quiescent += 1
+                    if o["api"] != prev["api"] or o["mem"] != prev["mem"]:
+                        nontrivial.add(hashlib.md5(vlib.canon([prev["api"], prev["mem"], prev["ctl"], o["op"], o["s"],
+                                                               o["act"] if o["op"].startswith("User") else None]).encode()).digest())
+                prev = o
+        mine = [f for f in fails if any(x.startswith(prefix) for x in f["fails"])]
+        byw = {}
+        if mine:
+            want = set(f["w"] for f in mine)
+            with open(obs_path) as fh:
+                for line in fh:
+                    m = re.search(r'"w":"([^"]*)"', line)
+                    if m and m.group(1) in want:
+                        byw.setdefault(m.group(1), []).append(json.loads(line))
         chk.cov["traces_validated_against_impl"] += len(steps)
         chk.cov["evaluations"] += nlines
         chk.cov["distinct_nontrivial"] += len(nontrivial)
         chk.cov["quiescent_observations"] = chk.cov.get("quiescent_observations", 0) + quiescent
         chk.cov["exhaustive"] = chk.cov.get("exhaustive", True) and exhaustive
         if steps and len(chk.cov["samples"]) < 2:
-            chk.cov["samples"].append({"cfg": cfg, "walk": steps[0][:10], "observations": byw.get("w0", [])[:4]})
-        mine = [f for f in fails if any(x.startswith(prefix) for x in f["fails"])]
+            chk.cov["samples"].append({"cfg": cfg, "walk": steps[0][:10], "observations": sample_obs})
         if mine:
             confirm(chk, mine, steps, inits, domain_path, byw)
     rule = ("controller level: every transition of the bounded TLC state graph of ControllerMC (user operations, pool "
